@@ -22,6 +22,7 @@ pub fn alphabet() -> Vec<Tk> {
         Tk::Return0,
         Tk::Invalid,
         Tk::PushJumpdests,
+        Tk::TruncPush,
         Tk::Sentinel,
         Tk::Pop,
         Tk::Add,
@@ -443,7 +444,7 @@ impl Check for C17 {
             total.get("validated"),
             &format!(
                 "all token sequences of length <= {} over {} tokens (stack-underflowing POP/ADD/DUP16/SWAP16, JUMP and JUMPI to valid, \
-                 in-push-data, non-JUMPDEST, out-of-range, >=2^32 and symbolic targets, halting instructions), 2 048 loops whose JUMPI target \
+                 in-push-data (also the partial data of a trailing PUSH32 that the end of the code cuts short), non-JUMPDEST, out-of-range, >=2^32 and symbolic targets, halting instructions), 2 048 loops whose JUMPI target \
                  advances on every iteration (bounded unrolling in the reference), a 1023/1024/1025 x PUSH0 \
                  prefix family for stack overflow, and a gas family on sequences <= 4 (5 in the thorough tier) run at gas limit {} and at EVERY gas limit at which a verdict can change (each cumulative minimum-gas value after some instruction of some reference path, and its two neighbours). For every loop-free program the \
                  reference EVM predicts the error events (class, offset) of all forced-branch paths; strict mode must fail and list \
@@ -464,6 +465,7 @@ impl Check for C17 {
         vec![
             "reference EVM predicts error events; for programs with loops only the events on paths that visit no instruction more than twice are demanded (strict direction only)".into(),
             "a JUMP (not JUMPI) to a non-constant target is ended silently by the tool: not required to be an error in strict mode, only required not to fail in permissive mode".into(),
+            "a trailing PUSH cut short by the end of the code ends its path in the reference as in the tool (decoded as invalid by design); a stack overflow that only this instruction would cause is a don't-care".into(),
             "multiplicity and order of error payloads and the exact variant within a class (stack-under, stack-over, jump, gas) are don't-cares".into(),
         ]
     }
